@@ -156,9 +156,15 @@ def cut_sizes(rng, bs, B, total):
     special = [0, 1, bs - 1, bs, bs + 1, B * bs - 1, B * bs, B * bs + 1, 2 * B * bs + 3]
     cuts = []
     left = total
+    pos = 0
+    W = rng.choice([bs, 4 * bs, 8 * bs])      # bytes per keystream batch of some back end
     while left > 0:
         c = rng.choice(special) if rng.chance(0.6) else rng.below(3 * B * bs)
+        if rng.chance(0.25):
+            # drain what is left of the current batch and stop exactly on a batch edge, 0..2 whole batches later
+            c = (W - pos % W) % W + rng.below(3) * W
         c = min(c, left)
+        pos += c
         cuts.append(c); left -= c
         if len(cuts) > 40: cuts.append(left); break
     if rng.chance(0.3): cuts.insert(rng.below(len(cuts) + 1), 0)
@@ -210,6 +216,14 @@ def gen_ctr(rng, n, B=8, set_counter_always=False, stats=None, fams=("ctr128", "
             else:
                 for c in cut_sizes(rng, bs, B, total): D.append("%s.encrypt c %s" % (fam, hx(rng.bytes(c))))
             if stats: stats.cls("directed-carry")
+        # directed: a call that ends inside a batch, one that drains the rest and runs k whole batches to end exactly on a
+        # batch edge, one more call - for the batch width of every back end
+        for Wd in (bs, 4 * bs, 8 * bs):
+            for o, k in ((5, 1), (Wd - 1, 2)):
+                D.append("%s.set_counter c %s %d" % (fam, hx(rng.bytes(bs)), bs))
+                for c in (o, (Wd - o) + k * Wd, 40, Wd + 3):
+                    D.append("%s.encrypt c %s" % (fam, hx(rng.bytes(c))))
+                if stats: stats.cls("directed-drain-to-edge")
         # directed: null counter with a non-zero size (the stack is dirtied before every call by the driver)
         for cl in ([1, bs] if n <= 8 else [1, 2, bs // 2, bs - 1, bs]):
             D.append("%s.set_counter c NULL %d" % (fam, cl))
@@ -298,14 +312,23 @@ def gen_keylen(rng, stats=None, junk_patterns=(0xA5, 0x00, 0xFF, 0x3C)):
                 L.append("%s.set_key k %s %d" % (fam, hx(key), ln))
                 L.append("%s.enc k %s" % (fam, hx(blk)))
                 L.append("%s.set_tweaked_key t %s %d" % (fam, hx(good), bs))
+                # a stored tweak: a rejected key must leave it (and the schedule that contains it) alone, so that the next
+                # tweak change still xors the right old tweak out
+                L.append("%s.set_tweak t %s %d" % (fam, hx(rng.bytes(bs)), bs))
                 L.append("%s.set_tweaked_key t %s %d" % (fam, hx(key), ln))
+                L.append("%s.tenc t %s" % (fam, hx(blk)))
+                L.append("%s.set_tweak t %s %d" % (fam, hx(rng.bytes(bs)), bs))
                 L.append("%s.tenc t %s" % (fam, hx(blk)))
                 L.append("ctr%s.set_key c %s %d" % (fam[1:], hx(good), bs))
                 L.append("ctr%s.set_key c %s %d" % (fam[1:], hx(key), ln))
                 L.append("ctr%s.set_counter c NULL 0" % fam[1:])
                 L.append("ctr%s.encrypt c %s" % (fam[1:], hx(blk)))
                 L.append("ctr%s.set_tweaked_key c %s %d" % (fam[1:], hx(good), bs))
+                L.append("ctr%s.set_tweak c %s %d" % (fam[1:], hx(rng.bytes(bs)), bs))
                 L.append("ctr%s.set_tweaked_key c %s %d" % (fam[1:], hx(key), ln))
+                L.append("ctr%s.set_counter c NULL 0" % fam[1:])
+                L.append("ctr%s.encrypt c %s" % (fam[1:], hx(blk)))
+                L.append("ctr%s.set_tweak c %s %d" % (fam[1:], hx(rng.bytes(bs)), bs))
                 L.append("ctr%s.set_counter c NULL 0" % fam[1:])
                 L.append("ctr%s.encrypt c %s" % (fam[1:], hx(blk)))
                 L.append("par%s.set_key p %s %d" % (fam[1:], hx(good), bs))
@@ -341,8 +364,14 @@ def gen_api_walk(rng, n_walks, steps, invalid_rate=0.2, lifecycle=True, fail_rat
         bs = 16 if fam.endswith("128") else 8
         base = {"ctr128": "s128", "par128": "s128", "ctr64": "s64", "par64": "s64"}.get(fam, "mantis")
         names = ["a", "b"]
-        L = ["h.new a %s" % rng.choice(["zero", "garbage"]), "h.new b zero"]
+        # (with allocation failures switched on, every third walk starts from an object holding garbage whose very first
+        # initialisation fails - the case in which "left inert" is not the same as "left untouched")
+        forced_fail = bool(fail_rate) and w % 3 == 0
+        L = ["h.new a %s" % ("garbage" if forced_fail else rng.choice(["zero", "garbage"])), "h.new b zero"]
         state = {"a": "raw", "b": "zero"}     # raw | zero | live | keyed | cleaned | failed
+        if forced_fail:
+            L += ["failat 0", "%s.init a" % fam, "failat none"]; state["a"] = "failed"
+            if stats: stats.cls("alloc-fail-on-garbage")
         def key_line(h, valid=True):
             if base == "mantis":
                 k = rng.bytes(16)
